@@ -414,8 +414,11 @@ def check(ctx):
             hist = t[2][4] if len(t[2]) > 4 else None
     hr = ("a", n("self"), "_history_required_for_tuning")
     cur = ("call", ("a", ("a", n("self"), "_position_chain"), "get_current_chain"), (), ())
+    want_h = [("phi", hr, ("call", ("a", ("call", ("a", cur, "get"), (), ()), m_), a_, ()),
+               c(None)) for m_ in ("expect", "unwrap") for a_ in ((), None)]
     ok_h = (hist is not None and hist[0] == "phi" and hist[1] == hr and hist[3] == c(None)
-            and hist[2][0] == "call" and hist[2][1][2] in ("expect", "unwrap")
+            and hist[2][0] == "call" and hist[2][1][0] == "a"
+            and hist[2][1][2] in ("expect", "unwrap")
             and hist[2][1][1] == ("call", ("a", cur, "get"), (), ()))
     ctx.ob("C12.R3", tk, "the history handed to the tuner is the position chain of the epoch "
                          "that just ended (get_current_chain().get()), i.e. that epoch's own "
